@@ -44,7 +44,7 @@ def main():
                 for cid in checks:
                     t0 = time.time()
                     rr = sh(['/venv/bin/python', os.path.join(ROOT, 'check.py'), cid, '--tier', 'quick'],
-                            env=dict(os.environ, VERIF_REPO=d), cwd=ROOT)
+                            env=dict(os.environ, VERIF_REPO=d, VERIF_EVIDENCE_DIR='/dev/shm/seed-evidence'), cwd=ROOT)
                     sigs = [l.split(':', 1)[1].strip()[:160] for l in rr.stdout.splitlines() if l.startswith('violation:')]
                     entry['checks'][cid] = {'exit': rr.returncode, 'caught': rr.returncode == 1, 'wall_s': round(time.time() - t0, 1),
                                             'violations': sigs[:4]}
